@@ -34,6 +34,7 @@ deriving DecidableEq, Repr, Inhabited
 def notSorted : String := "sub offsets are not sorted!"
 def encErr : String := "string encoding error"
 def includeTooLarge : String := "include section is too large to fit!"
+def nulErr : String := "string in a list of names cannot contain a NUL character"
 
 def scptMagic : Bytes := [83, 67, 80, 84]
 def animMagic : Bytes := [65, 78, 73, 77]
@@ -55,13 +56,17 @@ def strListBody : List Bytes → Bytes × Nat
 def writeStrListBytes (bs : List Bytes) : Bytes :=
   (strListBody bs).1 ++ List.replicate (padLen (strListBody bs).2) 0
 
-/-- `Encoded::encode` of every string, in order; the first failure is the diagnostic -/
+/-- the loop of `write_string_list` up to the write: every string, in order, is encoded
+(`Encoded::encode`) and then checked for a NUL byte in its encoding (dcd07d9: the strings of a list are
+NUL-terminated, one that contains a NUL would read back as two); the first string that fails either
+test gives the diagnostic, and for one string the encoding error comes before the NUL error -/
 def encAll (sj : Abi.Sjis) : List Text → Outcome (List Bytes)
   | [] => .ok []
   | s :: ss =>
     match sj.enc s with
     | none => .err encErr
     | some b =>
+      if b.contains 0 then .err nulErr else
       match encAll sj ss with
       | .ok bs => .ok (b :: bs)
       | .err c => .err c
